@@ -1,7 +1,5 @@
-(** * C10: entry points of the model of the CANDIDATE REPAIR (CsgFixed.v) for
-    the correspondence check. Used by props/C10/run.py only when the source
-    tree under test contains the repair (it looks for [AreOperandsBelow] in
-    CsgTree.cc). No proofs here. *)
+(** * C10: entry points of the model of the current code (CsgFixed.v = exchange
+    as repaired in /repo d70f3c2) for the correspondence check. No proofs here. *)
 From Coq Require Import List Arith Bool NArith ZArith.
 From Celer Require Import C10.Csg C10.Logic C10.DeMorgan C10.Run C10.CsgFixed.
 Import ListNotations.
